@@ -1,9 +1,62 @@
 import Okane.Drv.IOUtil
-/-! Driver commands for C19 (stub: replaced when the property's streams are built). -/
-namespace Okane.Drv.C19
+import Okane.Drv.DecodeSyntax
+import Okane.Model.Print
+/-!
+Driver for C19 (printer model).
 
-def main (args : List String) : IO Unit := do
-  let _ := args
-  pure ()
+* `drv c19 print`  — case: `(precs (C N) ...) (e1 e2 ...)` (entries in the format of harness/src/tree.rs);
+                     output `out=<enc>`: `Okane.Print.formatEntries prec entries`.
+* `drv c19 width`  — case: blank separated hex code points; output `cp:w` per code point (`Okane.Print.widthCjk`),
+                     `cp:-` for a code point outside `inWidthTable`.
+* `drv c19 ranges` — one line per input line: the domain of the width table, `lo-hi` (hex) blank separated.
+-/
+namespace Okane.Drv.C19
+open Okane Okane.Print
+
+def decPrecs : Sexp → Option (List (String × Nat))
+  | .list (.atom "precs" :: ps) => ps.mapM fun
+    | .list [c, n] => do
+      let c ← c.str?; let n ← n.nat?
+      pure (c, n)
+    | _ => none
+  | _ => none
+
+/-- `precisions.get(commodity).unwrap_or(0)` -/
+def precOf (ps : List (String × Nat)) (c : String) : Nat :=
+  match ps.find? (·.1 == c) with
+  | some p => p.2
+  | none => 0
+
+def stepPrint (line : String) : String :=
+  match Sexp.parse ("(" ++ line ++ ")") with
+  | some (.list [ps, es]) =>
+    match decPrecs ps, decList decEntry es with
+    | some ps, some es => "out=" ++ Sexp.encode (String.ofList (formatEntries (precOf ps) es))
+    | none, _ => "bad-case precs"
+    | _, none => "bad-case tree"
+  | _ => "bad-case sexp"
+
+def hexVal? (s : String) : Option Nat :=
+  s.toList.foldlM (fun acc c => (Sexp.hexVal c).map (acc * 16 + ·)) 0
+
+def stepWidth (line : String) : String :=
+  " ".intercalate <| (words line).map fun wd =>
+    match hexVal? wd with
+    | some n =>
+      let c := Char.ofNat n
+      if c.toNat == n && inWidthTable c then s!"{wd}:{widthCjk c}" else s!"{wd}:-"
+    | none => s!"{wd}:-"
+
+def toHex (n : Nat) : String := String.ofList (Nat.toDigits 16 n)
+
+def stepRanges (_ : String) : String :=
+  " ".intercalate (tableRanges.map fun r => s!"{toHex r.1}-{toHex r.2}")
+
+def main (args : List String) : IO Unit :=
+  match args with
+  | ["print"] => forEachLine stepPrint
+  | ["width"] => forEachLine stepWidth
+  | ["ranges"] => forEachLine stepRanges
+  | _ => IO.eprintln "usage: drv c19 print|width|ranges"
 
 end Okane.Drv.C19
